@@ -15,7 +15,7 @@ GROUPS = {
         'harness_file': 'kani/deps_harness.rs', 'append_to': 'src/lib.rs', 'filter': 'verif_kani_deps::',
         'harnesses': {
             'dep_f64_to_i128_range': ('dep.f64_to_i128_range', None), 'dep_timedelta_ctor_range': ('dep.timedelta_ctor_range', None),
-            'dep_timedelta_accessors': ('dep.timedelta_accessors', None), 'dep_timedelta_checked_ops': ('dep.timedelta_checked_ops', None),
+'dep_timedelta_checked_ops': ('dep.timedelta_checked_ops', None),
             'dep_from_timestamp_total': ('dep.from_timestamp_total', None), 'dep_decimal_from_i128_range': ('dep.decimal_from_i128_range', None),
         },
         'advisory': True,
